@@ -34,8 +34,10 @@ MOLS = {
 def build_batch(names, pad_coord=0.0, extra_pad=0, displace=0.0, seed=0):
     n = max(len(MOLS[x][0]) for x in names) + extra_pad
     sp, xyz, q, mult = [], [], [], []
-    g = torch.Generator().manual_seed(1234 + seed)
+    import zlib
+
     for x in names:
+        g = torch.Generator().manual_seed(1234 + seed + zlib.crc32(x.encode()) % 100000)  # displacement depends on the molecule only
         z, c, ch, mu = MOLS[x]
         c = torch.tensor(c, dtype=torch.float64)
         if displace:
